@@ -71,4 +71,5 @@ def model_key(events):
     """stack of open block kinds + the kind/doc of the last event (adjacency context)"""
     st, kinds, inner = context(events)
     last = events[-1] if events else {}
-    return (tuple(kinds), last.get("k"), last.get("doc", 0), last.get("impl"))
+    fixed = tuple(sorted({ev["name"] for ev in events if "name" in ev}))    # twins: 'defined before' is part of the state
+    return (tuple(kinds), last.get("k"), last.get("doc", 0), last.get("impl"), fixed)
